@@ -3,6 +3,7 @@ package chat
 import (
 	"bytes"
 	"errors"
+	"fmt"
 	"io"
 	"strconv"
 
@@ -31,7 +32,9 @@ func (m Message) MarshalNBT(w io.Writer) error {
 	enc.NetworkFormat(true)
 	var err error
 	if m.Translate != "" {
-		err = enc.Encode(translateMsg(m), "")
+		tm := translateMsg(m)
+		tm.With = homogeneousArgs(tm.With)
+		err = enc.Encode(tm, "")
 	} else {
 		err = enc.Encode(rawMsgStruct(m), "")
 	}
@@ -40,6 +43,35 @@ func (m Message) MarshalNBT(w io.Writer) error {
 	}
 	_, err = w.Write(buf.Bytes()[1:]) // skip the tag type byte
 	return err
+}
+
+// homogeneousArgs prepares translation arguments for the NBT form, where a list has a single element type:
+// when components are mixed with plain values, every plain value v is written as the text component of v.
+func homogeneousArgs(args TranslateArgs) TranslateArgs {
+	var components, plain bool
+	for _, a := range args {
+		switch a.(type) {
+		case Message, *Message:
+			components = true
+		default:
+			plain = true
+		}
+	}
+	if !components || !plain {
+		return args
+	}
+	out := make(TranslateArgs, len(args))
+	for i, a := range args {
+		switch v := a.(type) {
+		case Message, *Message:
+			out[i] = v
+		case string:
+			out[i] = Text(v)
+		default:
+			out[i] = Text(fmt.Sprint(v))
+		}
+	}
+	return out
 }
 
 func (m *Message) UnmarshalNBT(tagType byte, r nbt.DecoderReader) error {
